@@ -104,7 +104,7 @@ fn parse(linter: &Linter, sql: &str) -> Result<Option<Parsed>, String> {
 }
 
 // ------------------------------------------------------------------ perturbations
-pub const PERTURBATIONS: [&str; 11] = [
+pub const PERTURBATIONS: [&str; 12] = [
     "space->spaces",
     "space->tab",
     "space->newline",
@@ -116,6 +116,7 @@ pub const PERTURBATIONS: [&str; 11] = [
     "keywords-upper",
     "keywords-lower",
     "keywords-swap",
+    "mixed",
 ];
 
 fn swapcase(s: &str) -> String {
@@ -140,6 +141,7 @@ fn sites(ls: &[Leaf], p: usize) -> Vec<usize> {
         let ok = match p {
             0..=5 => l.kind == SyntaxKind::Whitespace,
             6 | 7 => l.kind == SyntaxKind::Newline,
+            11 => l.kind == SyntaxKind::Whitespace || l.kind == SyntaxKind::Newline || (l.kind == SyntaxKind::Keyword && l.raw.is_ascii()),
             _ => l.kind == SyntaxKind::Keyword && l.raw.is_ascii(),
         };
         if ok {
@@ -156,6 +158,16 @@ fn apply(ls: &[Leaf], p: usize, chosen: &[usize]) -> String {
         let hit = k < chosen.len() && chosen[k] == i;
         if hit {
             k += 1;
+            // "mixed": every claimed perturbation at once, chosen per site from the site index
+            let p = if p == 11 {
+                match l.kind {
+                    SyntaxKind::Whitespace => [0usize, 1, 2, 3][(i * 7 + l.start) % 4],
+                    SyntaxKind::Newline => [6usize, 7][(i + l.start) % 2],
+                    _ => [8usize, 9, 10][(i * 5 + l.start) % 3],
+                }
+            } else {
+                p
+            };
             match p {
                 0 => s.push_str("   "),
                 1 => s.push('\t'),
@@ -461,6 +473,28 @@ pub fn main(args: &Args) {
         return;
     }
     kernel_cases(args, &mut out);
+    // regression: the two-sided comment must not change the tree in any dialect
+    {
+        let mut buf = Buf::default();
+        for d in DIALECTS {
+            let linter = mk_linter(d);
+            for (orig, pert, cls) in [
+                ("SELECT a FROM t\n", "SELECT a /* c */ FROM t\n", "block-comment-in-whitespace"),
+                ("SELECT a FROM t\n", "select\n\ta\n\n\nfrom -- c\n t\n", "mixed"),
+                ("SELECT a FROM t\n", "SELECT a /* c */FROM t\n", "block-comment-right-of-whitespace"),
+            ] {
+                let key = if cls == "block-comment-right-of-whitespace" { "c11:comment-abuts-next-code-token".to_string() } else { format!("c11:{}:{}:{}", d, cls, fnv(pert)) };
+                let input = json!({"dialect":d,"perturbation":cls,"mode":"regression","origin":"regression","original":orig,"perturbed":pert});
+                match (parse(&linter, orig), parse(&linter, pert)) {
+                    (Ok(Some(a)), Ok(Some(b))) => buf.direct("regression", a.shape == b.shape, &key, "code-only tree differs", input),
+                    (Ok(Some(_)), Ok(None)) => buf.direct("regression", false, &key, "original parses fully, perturbed text has unparsable sections", input),
+                    (Ok(Some(_)), Err(m)) => buf.direct("regression", false, &key, &format!("perturbed text panics the parser: {}", m), input),
+                    _ => buf.count("regression_original_not_parsable", 1),
+                }
+            }
+        }
+        out.absorb(buf);
+    }
     let mut rng = Rng::new(args.seed);
     for f in corpus() {
         if f.text.len() > (if thorough { 20000 } else { 6000 }) {
